@@ -5,7 +5,8 @@ from props import segq_common as SQ
 ID = "C04"
 GEN = []
 RULE = ("unit cases: the real ImmutableFileNode/DecryptingConsumer/DownloadNode/Segmentation with 1-4 overlapping reads of a 1..7-segment "
-        "file, (offset, size) on and around segment and AES-block (16 byte) boundaries, sizes past EOF, offsets at and past EOF, size None, "
+        "file, (offset, size) on and around segment and AES-block (16 byte) boundaries, sizes past EOF, offsets at EOF and strictly past it (by one byte, a "
+        "segment, far beyond; on fresh and used nodes, alone and among other reads), size None, "
         "scripted consumers (pause / stop inside the n-th write, pause/resume/stop between events), right and wrong segment-size guesses, "
         "segments delivered in every interleaving by harness fetchers handing over real blocks; non-trivial = two or more reads, or a "
         "pause/stop; grid cases: the same on a real grid with 2-4 concurrent reads per node and seeded schedules; literal cases: "
@@ -49,8 +50,17 @@ def boundaries(m):
 
 def gen_unit_case(r, ci):
     size, k, n, seg = CONFIGS[ci]
-    return {"config": ci, "guess_max": r.choice([128 * 1024, 128 * 1024, seg, max(k, seg // 2), seg * 2 + k, 8]), "seed": r.getrandbits(32),
+    case = {"config": ci, "guess_max": r.choice([128 * 1024, 128 * 1024, seg, max(k, seg // 2), seg * 2 + k, 8]), "seed": r.getrandbits(32),
             "nreaders": r.choice([1, 2, 3, 4, 4]), "steps": r.choice([15, 40, 80]), "pfail": r.choice([0.0, 0.0, 0.0, 0.1])}
+    if r.random() < 0.25:
+        # a read that starts strictly past the end of the file: by one byte, by a segment, far beyond; on a fresh
+        # node (first), among other reads, or after everything else has finished (used node)
+        case["past_eof"] = {"beyond": r.choice([1, 1, 2, seg, seg + 1, 10 * size + 3]), "size": r.choice([None, None, 0, 1, 5, size]),
+                            "when": r.choice(["first", "among", "after"])}
+        if case["past_eof"]["when"] == "first" and r.random() < 0.5:
+            case["nreaders"] = 1
+            case["steps"] = 4
+    return case
 
 
 def drive_unit(case):
@@ -78,8 +88,15 @@ def drive_unit(case):
                 script[r.randrange(0, 4)] = r.choice(["pause", "pause", "stop"])
             return ("read", off, sz, script)
         nread = 0
-        for _ in range(case["steps"]):
+        pe = case.get("past_eof")
+        pe_read = ("read", m.size + pe["beyond"], pe["size"], {}) if pe else None
+        if pe and pe["when"] == "first":
+            do(pe_read)
+            nread += 1
+        for step in range(case["steps"]):
             x = r.random()
+            if pe and pe["when"] == "among" and step == 3:
+                do(pe_read)
             if nread < case["nreaders"] and (nread == 0 or x < 0.2):
                 do(rand_read())
                 nread += 1
@@ -101,27 +118,32 @@ def drive_unit(case):
                 do(("resume", r.randrange(len(d.readers))))
             elif d.readers:
                 do(("stop", r.randrange(len(d.readers))))
-        # let everything finish: fetches succeed, paused readers are resumed
-        guard = 0
-        while guard < 800:
-            guard += 1
-            if d.queue:
-                do(("run",))
-                continue
-            a = d.node._active_segment
-            if a is not None and a.running:
-                if d.node.segment_size is None:
-                    do(("learn",))
-                if a.segnum >= m.numsegs:
-                    do(("failed", "EBadSegNum"))
-                else:
-                    do(("blocks", True, "EOther", None))
-                continue
-            paused = [rd["i"] for rd in d.readers if rd["result"] is None and rd["seg"] is not None and not rd["seg"]._hungry]
-            if paused:
-                do(("resume", paused[0]))
-                continue
-            break
+        def finish():
+            # let everything finish: fetches succeed, paused readers are resumed
+            guard = 0
+            while guard < 800:
+                guard += 1
+                if d.queue:
+                    do(("run",))
+                    continue
+                a = d.node._active_segment
+                if a is not None and a.running:
+                    if d.node.segment_size is None:
+                        do(("learn",))
+                    if a.segnum >= m.numsegs:
+                        do(("failed", "EBadSegNum"))
+                    else:
+                        do(("blocks", True, "EOther", None))
+                    continue
+                paused = [rd["i"] for rd in d.readers if rd["result"] is None and rd["seg"] is not None and not rd["seg"]._hungry]
+                if paused:
+                    do(("resume", paused[0]))
+                    continue
+                break
+        finish()
+        if pe and pe["when"] == "after":
+            do(pe_read)
+            finish()
         return m, d.guess, events, terms, d.observe(), d
     finally:
         d.close()
@@ -135,7 +157,14 @@ def check_readers(ctx, m, events, d, cj):
         off, sz = ev[1], ev[2]
         want = m.plaintext[off:] if sz is None else m.plaintext[off:off + sz]
         got = b"".join(rd["chunks"])
-        if rd["result"] == 1:
+        if not want and (rd["result"] != 1 or got):
+            # Python slicing: an empty range (offset at or past EOF, or size 0) is an empty answer, never an error
+            where = "past the end of the %d-byte file" % m.size if off > m.size else ("at EOF" if off == m.size else "of size 0")
+            ctx.oracle_fail("read-past-eof-not-empty" if off >= m.size else "empty-read-not-empty",
+                            "read(%d,%r) %s ended with result code %r and %d bytes; data[%d:%s] is empty and the read must finish with nothing" % (
+                                off, sz, where, rd["result"], len(got), off, "" if sz is None else off + sz), case=cj, expected="done, no bytes",
+                            observed={"result_code": rd["result"], "bytes": got.hex()})
+        elif rd["result"] == 1:
             if got != want:
                 ctx.oracle_fail("read-returned-wrong-slice", "read(%d,%r) finished with %d bytes, the slice has %d" % (off, sz, len(got), len(want)),
                                 case=cj, expected=want.hex(), observed=got.hex())
@@ -190,6 +219,8 @@ def gen_grid_case(r):
     for _ in range(r.choice([1, 2, 3, 4, 4])):
         b = sorted(set([0, 1, 15, 16, 17, seg - 1, seg, seg + 1, 2 * seg, size - 16, size - 1, size, size + 5]))
         off = r.choice([x for x in b if x >= 0] + [r.randrange(size + 1)])
+        if r.random() < 0.15:
+            off = size + r.choice([1, 1, 2, seg, seg + 3, 10 * size])        # strictly past EOF
         sz = r.choice([None, None, 1, 16, 17, seg, seg + 1, size, size + 7, r.randrange(1, size + 1)])
         script = {}
         for _ in range(r.choice([0, 0, 1, 2])):
@@ -283,7 +314,12 @@ def grid_cases(ctx):
                 want = data[off:] if sz is None else data[off:off + sz]
                 got = b"".join(rec["chunks"])
                 stops = [int(ix) for ix, w in rd["script"].items() if w == "stop"]
-                if rec["result"] == "done":
+                if not want and (rec["result"] != "done" or got):
+                    ctx.oracle_fail("read-past-eof-not-empty" if off >= len(data) else "empty-read-not-empty",
+                                    "read(%d,%r) of the %d-byte file ended with %r and %d bytes; data[%d:%s] is empty and the read must finish with nothing" % (
+                                        off, sz, len(data), rec["result"], len(got), off, "" if sz is None else off + sz), case=case, expected="done, no bytes",
+                                    observed={"result": rec["result"], "bytes": got.hex()})
+                elif rec["result"] == "done":
                     if got != want:
                         ctx.oracle_fail("read-returned-wrong-slice", "read(%d,%r) finished with %d bytes, the slice has %d" % (off, sz, len(got), len(want)), case=case,
                                         expected=want.hex()[:300], observed=got.hex()[:300])
